@@ -5,9 +5,17 @@
    equations): the value of an expression does not depend on the statement
    frame around it; the increment forms are the same computation; negated
    conditions swap the branches; a condition must be boolean everywhere.
-   The compiled side of each equation is NOT proved (it is C01's open
-   statement); the check decides it by metamorphic pairs on the real code. *)
+   The compiled side is proved for PURE expressions (literals, globals, binary
+   and unary operators at any depth; ExprCorrect.v): whatever the context —
+   operand selector, result used or discarded, temp register allowed,
+   forbidden or accepted, operator depth, in or out of a function or loop —
+   the code the compiler model emits leaves the one value the semantics
+   defines where its operand says, and raises the same error
+   ([C12_pure_expression_any_context]).  For statements with effects the
+   compiled side is NOT proved (C01's open statement); the check decides it
+   by metamorphic pairs on the real code. *)
 Require Import Calc.Base Calc.Bytecode Calc.Value Calc.FloatText Calc.Ast Calc.Compile Calc.VM Calc.Sem Calc.SemProofs.
+Require Import Calc.ExprSem Calc.ExprVM Calc.ExprCorrect.
 Open Scope Z_scope.
 
 (* x = x + 1  and  x = 1 + x  are the same computation on ints and floats *)
@@ -56,3 +64,38 @@ Theorem C12_while_condition_must_be_boolean : forall n c b e st st1 v x,
   eval (S (S n)) (NWhile c b) e st = Done st1 (CErr x).
 Proof. exact sem_while_condition_must_be_bool. Qed.
 Print Assumptions C12_while_condition_must_be_boolean.
+
+(* every compilation context gives a pure expression the same meaning.  Unfolded:
+   comp e sel fl s = COk (w, s') implies there are code, K, A with
+   - s' is s extended by exactly that code (and data);
+   - w encodes operand (K, A) for selector sel, K one of stack/temp/data/global;
+   - the temp register is only used when the context allows it, never handed
+     to a context that is at depth 0 and neither discards nor accepts it;
+   - run from any machine state whose program holds that code at its place,
+     the code ends at its end with the value den e in (K, A), the stack below
+     unchanged (and the temp register unchanged when forbidden) — or stops
+     with the error den e has. *)
+Theorem C12_pure_expression_any_context : forall e, pure e = true ->
+  forall sel fl s w s', 0 <= sel <= 2 -> wfcs s -> Compile.comp e sel fl s = COk (w, s') ->
+  exists code K A,
+    rcs s' = rev code ++ rcs s /\ ncs s' = ncs s + zlen code /\ (exists d, rds s' = d ++ rds s) /\ wfcs s' /\
+    EncodeSrc sel K A = Some w /\ okind K /\
+    (K = AddrTmp -> ForbidTemp fl = false) /\
+    (OpDepth fl = 0 -> Discard fl = false -> AcceptTemp fl = false -> K <> AddrTmp) /\
+    forall rr v mid m r,
+      code_at v (ncs s) code -> data_at v s' -> cur_mid v r = Good mid ->
+      0 <= m_sp m <= zlen (m_stack m) -> r_ip r = ncs s ->
+      match den (v_globals v) e with
+      | Ok x => exists m' r', steps rr (List.length code) (St v mid m) r = SNext (St v mid m') r' /\
+                  msame (m_sp m) m m' /\ r_ctx r' = r_ctx r /\ r_ip r' = ncs s' /\
+                  (ForbidTemp fl = true -> r_tmp r' = r_tmp r) /\ opnd v (m_sp m) K A x m' r'
+      | Fail err => exists v' ip vals, steps rr (List.length code) (St v mid m) r = SErr v' (r_ctx r) ip err vals
+      end.
+Proof. exact comp_pure_spec. Qed.
+Print Assumptions C12_pure_expression_any_context.
+
+(* e op e  and  t = e; t op t : the shortcut for equal operands computes the same *)
+Theorem C12_same_operands : forall G op c e, binop_opcode op = Some c ->
+  den G (NBin op e e) = match den G e with Fail err => Fail err | Ok a => apply_binop c a a end.
+Proof. intros G op c e H. cbn [den]. rewrite H. destruct (den G e); reflexivity. Qed.
+Print Assumptions C12_same_operands.
